@@ -14,8 +14,8 @@ LEVEL = "exploration"
 RULE = ("Cases: initial content as in C11 but without line breaks inside lines (no '\\n', no '\\r'), one of the four mutable variants "
         "(record variants with a pass-through record class), a history of <=30 operations from f[i]=s, del f[i], insert, append, extend, "
         "pop, remove, reverse, +=, reads (index, slice, iteration) and save(path|StringIO, line_ending in '\\n','\\r\\n','\\t',';',''), "
-        "indices positive, negative and out of range. Oracle: a Python list driven by the same operations (equal length/items after "
-        "every step, IndexError/ValueError parity); save writes exactly ''.join(line+line_ending); a file saved with '\\n' reopened "
+        "indices positive, negative and out of range, with read p - one operation - read p segments spliced in. Oracle: a Python list driven by the same operations (equal length after every step, equal items after "
+        "every step or - a third of the histories - only through the history's own reads and after its last step; IndexError/ValueError parity); save writes exactly ''.join(line+line_ending); a file saved with '\\n' reopened "
         "through the buffered and the memory-mapped class gives the model list; dirty is False before the first mutating call and True "
         "whenever the content differs from the initial content; SHA-256 of the source unchanged. Non-trivial: a read of a line that is "
         "still file-backed after an insert/delete shifted its position, or a save of a mixed (file-backed + in-memory) view. "
